@@ -757,4 +757,156 @@ Section Total.
           { destruct (Hcur _ Hs) as [Hnm|E]; [apply named_inline in Hnm; exact Hnm|discriminate E]. }
           apply (proj2 (IH _ _ _ _ _ _ _ Eb Hns)). exists q. split; [exact Hqb|exact Hip].
   Qed.
+
+  (* ---------- ... at every depth of the selection a step sends ---------- *)
+  Fixpoint subs_of (a : string) (s : sel) : list (list sel) :=
+    match s with
+    | Field al _ _ _ sub => if String.eqb al a then [sub] else []
+    | Inline _ _ sub => (fix go (l : list sel) := match l with [] => [] | x :: r => subs_of a x ++ go r end) sub
+    | Spread _ _ => []
+    end.
+  Definition lsubs (a : string) (l : list sel) : list (list sel) := flat_map (subs_of a) l.
+
+  Lemma subs_inline a t dirs sub : subs_of a (Inline t dirs sub) = lsubs a sub.
+  Proof. cbn [subs_of]. unfold lsubs. induction sub as [|x r IH]; cbn [flat_map]; [reflexivity|rewrite IH; reflexivity]. Qed.
+
+  (* is the synthesised id selected at the end of this path of response keys? *)
+  Fixpoint id_at (rest : list string) (l : list sel) : bool :=
+    match rest with
+    | [] => lhas_id l
+    | a :: r => existsb (id_at r) (lsubs a l)
+    end.
+
+  Lemma id_at_nil_sel rest : id_at rest [] = false.
+  Proof. destruct rest; reflexivity. Qed.
+
+  Lemma keep_subs below ptype ip w a : forall cur k pls, keep_with ft below ptype ip w cur = Ok (k, pls) ->
+    forall sub', In sub' (lsubs a k) ->
+      sub' = [] \/
+      (exists n args dirs sub t b, In (Field a n args dirs sub) cur /\ sub <> [] /\ below t (ip ++ [a]) [] sub = Ok b /\ sub' = fst b /\ incl (snd b) pls) \/
+      (exists t dirs sub b, In (Inline t dirs sub) cur /\ below (tc_of ptype t) ip (w ++ [Inline t dirs sub]) sub = Ok b /\
+                            In sub' (lsubs a (fst b)) /\ incl (snd b) pls).
+  Proof.
+    induction cur as [|s r IH]; intros k pls H sub' Hin; cbn [keep_with] in H.
+    - injection H as <- <-. destruct Hin.
+    - fold (keep_with ft below ptype ip w) in H.
+      match type of H with (bind ?X _ = _) => destruct X as [here|e|e] eqn:Eh; cbn [bind] in H; try discriminate end.
+      destruct (keep_with ft below ptype ip w r) as [[k' pls']|e|e] eqn:Er; cbn [bind] in H; try discriminate.
+      injection H as <- <-. cbn [fst snd] in *. unfold lsubs in Hin. cbn [flat_map] in Hin. apply in_app_or in Hin. destruct Hin as [Hin|Hin].
+      + destruct s as [al n args dirs sub|t dirs sub|nm dirs]; [| |discriminate].
+        * destruct sub as [|s0 sr].
+          -- injection Eh as <-. cbn [fst subs_of] in Hin. destruct (String.eqb al a); [|destruct Hin]. destruct Hin as [<-|[]]. left. reflexivity.
+          -- destruct (assoc (url_key ptype n) ft) as [t0|]; [|discriminate].
+             destruct (below t0 (ip ++ [al]) [] (s0 :: sr)) as [b|e|e] eqn:Eb; cbn [bind] in Eh; try discriminate. injection Eh as <-.
+             cbn [fst subs_of] in Hin. destruct (String.eqb al a) eqn:Ea; [|destruct Hin]. apply String.eqb_eq in Ea. subst al.
+             destruct Hin as [<-|[]]. right. left. exists n, args, dirs, (s0 :: sr), t0, b.
+             split; [left; reflexivity|]. split; [discriminate|]. split; [exact Eb|]. split; [reflexivity|]. cbn [snd]. intros q Hq. apply in_or_app. left. exact Hq.
+        * destruct (below (if String.eqb t "" then ptype else t) ip (w ++ [Inline t dirs sub]) sub) as [b|e|e] eqn:Eb; cbn [bind] in Eh; try discriminate.
+          injection Eh as <-. cbn [fst] in Hin. rewrite subs_inline in Hin. right. right. exists t, dirs, sub, b.
+          split; [left; reflexivity|]. split; [exact Eb|]. split; [exact Hin|]. cbn [snd]. intros q Hq. apply in_or_app. left. exact Hq.
+      + destruct (IH _ _ eq_refl sub' Hin) as [E|[(n & args & dirs & sub & t & b & A & B & C & D & E)|(t & dirs & sub & b & A & B & C & D)]].
+        * left. exact E.
+        * right. left. exists n, args, dirs, sub, t, b. split; [right; exact A|]. split; [exact B|]. split; [exact C|]. split; [exact D|].
+          intros q Hq. apply in_or_app. right. exact (E q Hq).
+        * right. right. exists t, dirs, sub, b. split; [right; exact A|]. split; [exact B|]. split; [exact C|].
+          intros q Hq. apply in_or_app. right. exact (D q Hq).
+  Qed.
+
+  Lemma keep_subs_field below ptype ip w a : forall cur k pls, keep_with ft below ptype ip w cur = Ok (k, pls) ->
+    forall n args dirs sub t b, In (Field a n args dirs sub) cur -> sub <> [] -> assoc (url_key ptype n) ft = Some t ->
+      below t (ip ++ [a]) [] sub = Ok b -> In (fst b) (lsubs a k).
+  Proof.
+    induction cur as [|s r IH]; intros k pls H n args dirs sub t b Hin Hne Ht Hb; [destruct Hin|]. cbn [keep_with] in H.
+    fold (keep_with ft below ptype ip w) in H.
+    match type of H with (bind ?X _ = _) => destruct X as [here|e|e] eqn:Eh; cbn [bind] in H; try discriminate end.
+    destruct (keep_with ft below ptype ip w r) as [[k' pls']|e|e] eqn:Er; cbn [bind] in H; try discriminate.
+    injection H as <- <-. unfold lsubs. cbn [flat_map fst]. apply in_or_app. destruct Hin as [->|Hin].
+    - left. destruct sub as [|s0 sr]; [contradiction Hne; reflexivity|]. rewrite Ht in Eh. rewrite Hb in Eh. cbn [bind] in Eh. injection Eh as <-.
+      cbn [fst subs_of]. rewrite String.eqb_refl. left. reflexivity.
+    - right. exact (IH _ _ eq_refl n args dirs sub t b Hin Hne Ht Hb).
+  Qed.
+
+  Lemma keep_subs_inline below ptype ip w a : forall cur k pls, keep_with ft below ptype ip w cur = Ok (k, pls) ->
+    forall t dirs sub b sub', In (Inline t dirs sub) cur -> below (tc_of ptype t) ip (w ++ [Inline t dirs sub]) sub = Ok b ->
+      In sub' (lsubs a (fst b)) -> In sub' (lsubs a k).
+  Proof.
+    induction cur as [|s r IH]; intros k pls H t dirs sub b sub' Hin Hb Hs; [destruct Hin|]. cbn [keep_with] in H.
+    fold (keep_with ft below ptype ip w) in H.
+    match type of H with (bind ?X _ = _) => destruct X as [here|e|e] eqn:Eh; cbn [bind] in H; try discriminate end.
+    destruct (keep_with ft below ptype ip w r) as [[k' pls']|e|e] eqn:Er; cbn [bind] in H; try discriminate.
+    injection H as <- <-. unfold lsubs. cbn [flat_map fst]. apply in_or_app. destruct Hin as [->|Hin].
+    - left. unfold tc_of in Hb. rewrite Hb in Eh. cbn [bind] in Eh. injection Eh as <-. cbn [fst]. rewrite subs_inline. exact Hs.
+    - right. exact (IH _ _ eq_refl t dirs sub b sub' Hin Hb Hs).
+  Qed.
+
+  (* the type keep_with looks a field's sub-selection up under is the one recorded for the field *)
+  Lemma keep_payloads_t below ptype ip w : forall cur k pls, keep_with ft below ptype ip w cur = Ok (k, pls) ->
+    forall q, In q pls -> exists s, In s cur /\
+      match s with
+      | Field a n _ _ sub => sub <> [] /\ exists t b, assoc (url_key ptype n) ft = Some t /\ below t (ip ++ [a]) [] sub = Ok b /\ In q (snd b)
+      | Inline t dirs sub => exists b, below (tc_of ptype t) ip (w ++ [Inline t dirs sub]) sub = Ok b /\ In q (snd b)
+      | Spread _ _ => False
+      end.
+  Proof.
+    induction cur as [|s r IH]; intros k pls H q Hq; cbn [keep_with] in H; [injection H as <- <-; destruct Hq|].
+    fold (keep_with ft below ptype ip w) in H.
+    match type of H with (bind ?X _ = _) => destruct X as [here|e|e] eqn:Eh; cbn [bind] in H; try discriminate end.
+    destruct (keep_with ft below ptype ip w r) as [[k' pls']|e|e] eqn:Er; cbn [bind] in H; try discriminate.
+    injection H as <- <-. cbn [fst snd] in Hq. apply in_app_or in Hq. destruct Hq as [Hq|Hq].
+    - exists s. split; [left; reflexivity|].
+      destruct s as [a n args dirs sub|t dirs sub|nm dirs]; [| |discriminate].
+      + destruct sub as [|s0 sr]; [injection Eh as <-; destruct Hq|].
+        destruct (assoc (url_key ptype n) ft) as [t0|] eqn:Et; [|discriminate].
+        destruct (below t0 (ip ++ [a]) [] (s0 :: sr)) as [b|e|e] eqn:Eb; cbn [bind] in Eh; try discriminate.
+        injection Eh as <-. cbn [snd] in Hq. split; [discriminate|]. exists t0, b. auto.
+      + destruct (below (if String.eqb t "" then ptype else t) ip (w ++ [Inline t dirs sub]) sub) as [b|e|e] eqn:Eb; cbn [bind] in Eh; try discriminate.
+        injection Eh as <-. cbn [snd] in Hq. exists b. auto.
+    - destruct (IH _ _ eq_refl q Hq) as [s' [A B]]. exists s'. split; [right; exact A|exact B].
+  Qed.
+
+  Theorem id_at_iff_step_queued : forall fuel ptype ploc ip w sels kept pls,
+    extract prios urls ft fuel ptype ploc ip w sels = Ok (kept, pls) -> lnamed sels ->
+    forall rest, id_at rest kept = true <-> exists q, In q pls /\ pl_ipoint q = ip ++ rest.
+  Proof.
+    induction fuel as [|f IH]; intros ptype ploc ip w sels kept pls H Hn rest; [discriminate|].
+    destruct rest as [|a r].
+    { rewrite app_nil_r. cbn [id_at]. exact (id_injected_iff_step_queued _ _ _ _ _ _ _ _ H Hn). }
+    pose proof H as H0. cbn [extract] in H.
+    destruct (group prios urls ptype ploc sels []) as [groups|e|e] eqn:Eg; cbn [bind] in H; try discriminate.
+    destruct (queue_others ptype ploc ip w groups) as [others|e|e] eqn:Eo; cbn [bind] in H; try discriminate.
+    match type of H with (bind ?X _ = _) => destruct X as [[k kp]|e|e] eqn:Ek; cbn [bind] in H; try discriminate end.
+    injection H as <- <-. cbn [fst snd].
+    set (cur := match others with [] => match get_at ploc groups with Some ss => ss | None => [] end
+                | _ :: _ => (match get_at ploc groups with Some ss => ss | None => [] end) ++ [id_field] end) in *.
+    assert (Hcur : forall s, In s cur -> named s \/ s = id_field).
+    { intros s Hs. destruct (current_elems _ _ _ _ _ _ Eg Hs) as [->|[Hd _]]; [right; reflexivity|left; exact (der_named _ _ Hn Hd)]. }
+    cbn [id_at]. rewrite existsb_exists. split.
+    - intros [sub' [Hin Hid]].
+      destruct (keep_subs _ _ _ _ a _ _ _ Ek sub' Hin) as [->|[(n & args & dirs & sub & t & [bk bp] & A & B & C & D & E)|(t & dirs & sub & [bk bp] & A & B & C & D)]].
+      + rewrite id_at_nil_sel in Hid. discriminate.
+      + assert (Hns : lnamed sub) by (destruct (Hcur _ A) as [Hnm|E0]; [apply named_field in Hnm; tauto|injection E0 as _ _ _ _ E1; contradiction (B E1)]).
+        cbn [fst] in D. subst sub'. destruct (proj1 (IH _ _ _ _ _ _ _ C Hns r) Hid) as [q [Hq Hip]].
+        exists q. split; [apply in_or_app; right; apply E; exact Hq|]. rewrite Hip, <- app_assoc. reflexivity.
+      + assert (Hns : lnamed sub) by (destruct (Hcur _ A) as [Hnm|E0]; [apply named_inline in Hnm; exact Hnm|discriminate E0]).
+        assert (Hid' : id_at (a :: r) bk = true) by (cbn [id_at]; apply existsb_exists; exists sub'; split; [exact C|exact Hid]).
+        destruct (proj1 (IH _ _ _ _ _ _ _ B Hns (a :: r)) Hid') as [q [Hq Hip]].
+        exists q. split; [apply in_or_app; right; apply D; exact Hq|exact Hip].
+    - intros [q [Hq Hip]]. apply in_app_or in Hq. destruct Hq as [Hq|Hq].
+      + exfalso. rewrite (queue_others_ipoint _ _ _ _ _ _ Eo q Hq) in Hip.
+        apply (f_equal (@length string)) in Hip. rewrite app_length in Hip. cbn [length] in Hip. lia.
+      + destruct (keep_payloads_t _ _ _ _ _ _ _ Ek q Hq) as [s [Hs Hcase]].
+        destruct s as [al n args dirs sub|t dirs sub|nm dirs]; [| |destruct Hcase].
+        * destruct Hcase as [Hne [t0 [[bk bp] [Et [Eb Hqb]]]]].
+          destruct (extract_ipoints _ _ _ _ _ _ _ _ Eb q Hqb) as [rest' Hr].
+          rewrite Hip, <- app_assoc in Hr. apply app_inv_head in Hr. cbn [app] in Hr. injection Hr as <- <-.
+          assert (Hns : lnamed sub) by (destruct (Hcur _ Hs) as [Hnm|E0]; [apply named_field in Hnm; tauto|injection E0 as _ _ _ _ E1; contradiction (Hne E1)]).
+          exists bk. split.
+          -- exact (keep_subs_field _ _ _ _ a _ _ _ Ek n args dirs sub t0 (bk, bp) Hs Hne Et Eb).
+          -- apply (proj2 (IH _ _ _ _ _ _ _ Eb Hns r)). exists q. split; [exact Hqb|]. rewrite Hip, <- app_assoc. reflexivity.
+        * destruct Hcase as [[bk bp] [Eb Hqb]].
+          assert (Hns : lnamed sub) by (destruct (Hcur _ Hs) as [Hnm|E0]; [apply named_inline in Hnm; exact Hnm|discriminate E0]).
+          assert (Hid' : id_at (a :: r) bk = true) by (apply (proj2 (IH _ _ _ _ _ _ _ Eb Hns (a :: r))); exists q; split; [exact Hqb|exact Hip]).
+          cbn [id_at] in Hid'. apply existsb_exists in Hid'. destruct Hid' as [sub' [Hin Hid]].
+          exists sub'. split; [|exact Hid]. exact (keep_subs_inline _ _ _ _ a _ _ _ Ek t dirs sub (bk, bp) sub' Hs Eb Hin).
+  Qed.
 End Total.
